@@ -28,9 +28,9 @@ EXPLANATION = ("T1 proves, relative to a trusted hyper-h2 contract and for every
                "with the last byte. The proofs use representative stream ids and a bounded number of waiting "
                "streams/events; frame-level interleavings, segmentation and the real hyper-h2 state machines are covered bounded in T2 "
                "(two plain hyper-h2 peers around the real HttpLayer). HttpStream.check_body_size never closes a connection: an oversized response "
-               "cancels only this stream's own upstream stream. Known findings KF-C05-1 (streams waiting for capacity are not told when the "
-               "upstream connection dies) and KF-C05-2 (check_invalid closes the shared upstream connection) are excluded by their class "
-               "predicates and re-witnessed on every run.")
+               "cancels only this stream's own upstream stream. When the upstream connection dies, the open streams and the streams still waiting for capacity are each told once "
+               "(the latter was KF-C05-1, repaired in dcf87b3d2). Known finding KF-C05-2 (check_invalid closes the shared upstream connection) "
+               "is excluded by its class predicate and re-witnessed on every run.")
 ASSUMPTIONS = [
     "hyper-h2 (h2.connection.H2Connection / BufferedH2Connection) is trusted: open_outbound_streams counts our open streams, remote_settings.max_concurrent_streams is the peer's current limit, get_next_available_stream_id() is fresh and increasing, receive_data reports each frame as an event with the right stream id",
     "T1 uses representative ids (client streams 5, 9 open as 1, 3; 21 and 17 waiting, 21 first; 13 new): the code uses ids only as dictionary keys",
@@ -1165,7 +1165,7 @@ def s_h2c_closed(vc):
     vc.ensure("nobody_else_told", all(t in (5, 9, 21, 17) for t in told))
     # "none is lost": a request still waiting for upstream capacity depends on this connection too
     waiting = [sid for sid, _ in queued]
-    vc.ensure_kf("waiting_streams_told_once_too", all(told.count(sid) == 1 for sid in waiting), "KF-C05-1", nq > 0)
+    vc.ensure("waiting_streams_told_once_too", all(told.count(sid) == 1 for sid in waiting))   # was KF-C05-1, repaired in dcf87b3d2
     h = (layer.fields if vc.mode == "sym" else layer.__dict__).get("_handle_event")
     vc.ensure("connection_done", h is not None)
 
